@@ -21,6 +21,10 @@ type SessCase struct {
 	KeyKind  string
 	KeyIdx   int
 	Temporal bool
+	KeyPEM   int // as in Case
+	NoDER    bool
+	DecoyIdx int
+	Siblings []Sibling
 	Chain    world.ChainSpec
 	Other    world.ChainSpec
 	Ext      []byte
@@ -43,6 +47,7 @@ type SessStep struct {
 
 func genSess(t *rapid.T) SessCase {
 	c := SessCase{KeyKind: rapid.SampledFrom([]string{"p256", "p256", "rsa2048", "rsa3072"}).Draw(t, "keykind"), KeyIdx: rapid.IntRange(0, 7).Draw(t, "keyidx")}
+	genKeyOptions(t, &c.KeyPEM, &c.NoDER, &c.DecoyIdx, &c.Siblings)
 	kind := rapid.SampledFrom([]string{"sth", "sth", "sth", "add", "add", "pre", "mixed"}).Draw(t, "kind")
 	c.Chain = world.GenSpec(t, "chain")
 	c.Other = world.GenSpec(t, "other")
@@ -119,7 +124,8 @@ func genSess(t *rapid.T) SessCase {
 
 func (c SessCase) stepCase(st SessStep) Case {
 	sc := Case{Method: st.Method, KeyKind: c.KeyKind, KeyIdx: c.KeyIdx, Temporal: c.Temporal && retrying(st.Method), Chain: c.Chain, Other: c.Other,
-		Timestamp: st.Timestamp, TreeSize: st.TreeSize, Seed: st.Seed, Ext: st.Ext, Script: st.Script, DeadlineS: st.DeadlineS}
+		Timestamp: st.Timestamp, TreeSize: st.TreeSize, Seed: st.Seed, Ext: st.Ext, Script: st.Script, DeadlineS: st.DeadlineS,
+		KeyPEM: c.KeyPEM, NoDER: c.NoDER, DecoyIdx: c.DecoyIdx, Siblings: c.Siblings}
 	if st.UseOther {
 		sc.Chain, sc.Other = c.Other, c.Chain
 	}
@@ -184,7 +190,7 @@ func checkSess(t *testing.T, c SessCase) (v harness.Verdict) {
 		runs[i] = r
 		v.Class("step:" + st.Method)
 	}
-	v.Class(fmt.Sprintf("steps:%d", len(c.Steps)))
+	v.Class(fmt.Sprintf("steps:%d", len(c.Steps)), keyOptClass(c.KeyPEM, c.NoDER), fmt.Sprintf("siblings:%d", len(c.Siblings)))
 
 	rt := &scriptRT{}
 	var setup any
